@@ -6,7 +6,7 @@ PROP = dict(
              # the registry as the event loop uses it (added by the orchestrator after a missed seed: a failed
              # registration must not leave an entry behind): real engine runs incl. injected epoll_ctl(ADD) failures,
              # judged here only by the registry-related oracles
-             dict(cmd="drv-loop", family="loop", variant="regfault", shrink=False, args=["-focus", "fault", "-n", "25"],
+             dict(cmd="drv-loop", family="loop", variant="regfault", shrink=False, netns=True, args=["-focus", "fault", "-n", "25"],
                   sites=["^count-connections$", "^lifecycle$", "^loop-stuck$", "^engine-start$"],
                   unix_swap=__import__("loopfam").LOOP_SWAP, timeout=dict(quick=600, thorough=3000))],
     rule="a case is one registry driven by a generated op sequence (add / del first-middle-last-random by position / "
